@@ -28,10 +28,10 @@ func Profiles(ps int) []Profile {
 	return []Profile{
 		{"tiny", 2, []int{4, 5, 8}},
 		{"small", 8, []int{16, 4, 40}},
-		{"quarter", 12, []int{ps/4 - 40, ps / 4, ps/4 + 40, 8}},       // around the inline threshold
-		{"half", 40, []int{ps/2 - 60, ps / 3, 20, ps / 2}},              // two keys per leaf
-		{"page", 16, []int{ps - 80, ps + 10, 30, 2*ps + 100}},          // overflow pages
-		{"bigkey", ps/2 - 8, []int{8, ps / 8, 4}},                      // branch pages split early
+		{"quarter", 12, []int{ps/4 - 40, ps / 4, ps/4 + 40, 8}}, // around the inline threshold
+		{"half", 40, []int{ps/2 - 60, ps / 3, 20, ps / 2}},      // two keys per leaf
+		{"page", 16, []int{ps - 80, ps + 10, 30, 2*ps + 100}},   // overflow pages
+		{"bigkey", ps/2 - 8, []int{8, ps / 8, 4}},               // branch pages split early
 		{"mixed", 24, []int{4, ps / 5, ps + ps/2, 60, 3*ps + 7, ps / 3}},
 	}
 }
